@@ -4,7 +4,7 @@
    order - the loop under every schedule is such a sequence (impl_loop_iteration_steps).  [is_fault s = None]: no assert of the
    code has failed so far (impl_no_fault: holds for every state reachable in a build). *)
 From LLB Require Import Engine.Rules Engine.Spec Engine.Impl.
-From LLB Require Import Engine.ImplProofs Engine.ImplProofsMono Engine.ImplProofsLoop Engine.ImplProofsInv9 Engine.ImplProofsStall Engine.ImplProofsRun Engine.ImplProofsExamples.
+From LLB Require Import Engine.ImplProofs Engine.ImplProofsMono Engine.ImplProofsLoop Engine.ImplProofsInv9 Engine.ImplProofsStall Engine.ImplProofsRun Engine.ImplProofsExamples Engine.ImplProofsAvail.
 From LLB Require Import Engine.Exec.
 From LLB Require Engine.FindCycle.
 Local Open Scope N_scope.
@@ -47,6 +47,15 @@ Theorem impl_waitcount : forall rules env F ord syncp s0 root s,
   forall t ti, aget (is_tasks s) t = Some ti -> ti_wait ti = outstanding_count s t.
 Proof. exact waitcount. Qed.
 Print Assumptions impl_waitcount.
+
+(* inputsAvailable (C06): at most once per task and build (impl_at_most_once), and only when waitCount = 0 and NONE of the task's
+   requests is outstanding anywhere - so every requested input has been delivered and every must-follow key has completed
+   (an order-only request leaves finishedInputRequests only when its rule is complete).  [l]: the events of this step. *)
+Theorem impl_inputs_available_at_zero : forall rules env F ord syncp s0 root s s' l k,
+  in_build rules env F ord syncp s0 root s -> mstep rules env F ord syncp s s' -> is_log s' = l ++ is_log s -> In (EAvail k) l ->
+  exists ti, aget (is_tasks s) k = Some ti /\ kind_of s k = KWaiting /\ ti_wait ti = 0%nat /\ outstanding_count s k = 0%nat.
+Proof. exact inputs_available_at_zero. Qed.
+Print Assumptions impl_inputs_available_at_zero.
 
 (* The stalled engine (C07).  If an iteration does no work, nothing is computing and the stall test fires, and the requested key is
    itself unfinished (it has a task or is being scanned), then every node reachable from it in findCycle's successor graph waits on
